@@ -254,6 +254,9 @@ func genListPairNasty(t *rapid.T) (val.V, val.V, gen.Profile) {
 	} else {
 		b = gen.EditN(t, a, p, 1, 5)
 	}
+	if gen.Chance(t, "pathTwins", 4) {
+		a, b = gen.PathTwins(t, a, b, p)
+	}
 	if gen.Chance(t, "deep", 15) {
 		a, b = gen.DeepPair(t, a, b, p)
 	}
